@@ -39,7 +39,8 @@ RULE = ('(a) API histories over 8 names x 2 characters x 5 object classes (envir
         '\\makeatletter/\\makeatother, \\newif, \\newcounter/\\setcounter, \\global\\def/\\global\\let and uses of the defined macros in '
         'between; all 13 local changes x 14 group kinds x 2 nestings exhaustively; plus environments closed over an unclosed group and '
         'groups closed over an unclosed environment. Non-trivial = the history has a group with a local change inside it and an observation after it closes.')
-TRUSTED = ['program level: the translation of a generated program into the operation history its constructs stand for '
+TRUSTED = ['program level: \\begin{x}/\\end{x} are run by the Model itself (begin_env / end_env: class lookup, kind of class, push/pop), for '
+           'the other constructs the translation of a generated program into the operation history its constructs stand for '
            '(harness/props/C04.py compile_prog) is glue; only lookups, category codes, cells and the depth between top-level '
            'constructs are compared there, never the number of frames a construct uses internally',
            'modelled, not verified: Python object identity (`is`) as an integer id, type() as a class index, dict as association list; '
@@ -112,6 +113,10 @@ def wire_op(objs, op):
         return [10, 1, 5, [0, op[1]], 0]
     if k == 'set':
         return [11, op[1], op[2]]
+    if k == 'benv':     # \begin{x}: Model begin_env (name, kind of class, identity of the instance, nodeName, class-local macros)
+        return [14, op[1], op[2], op[3] + 1, [ord(c) for c in op[4]], []]
+    if k == 'eenv':     # \end{x}: Model end_env
+        return [15, op[1], op[2], op[3] + 1, [ord(c) for c in op[4]]]
     raise ValueError(op)
 
 
@@ -543,6 +548,7 @@ def streams(rng, tier, boost):
 # pushes the context and leaves it open until \\end); names unknown to plasTeX (samepage, qunknownenv: an UnrecognizedMacro class is
 # generated and takes the same branch).  \\begin{x} ... \\end{x} of any name is a group.
 ENVS = ['center', 'quote', 'flushleft', 'sloppypar', 'sloppy', 'samepage', 'qunknownenv']
+MACRO_ENVS = ['sloppypar', 'sloppy', 'samepage', 'qunknownenv']
 MATHS = {'math': ('$', '$', 'math'), 'ddollar': ('$$', '$$', 'displaymath'), 'dmath': ('\\[', '\\]', 'displaymath')}
 CMDS = ['textbf', 'emph', 'mbox', 'footnote', 'underline']
 
@@ -655,6 +661,7 @@ def compile_prog(case):
     """the history the constructs of the program stand for (in program order = TeX's order of execution), and the places where
     the program observes: marks = [('probe', obs index, top-level?) | ('use', obs index, k)]"""
     objs, ops, marks = [], [], []
+    envno = [0]
 
     def newobj(kind, mode):
         objs.append([PT[kind], mode, -1])
@@ -665,6 +672,15 @@ def compile_prog(case):
         ops.append(['push', o])
         body(depth + 1)
         ops.append(['pop', p])
+
+    def envpair(kind, body, depth):
+        # \begin{kind} ... \end{kind}: the Model's begin_env / end_env decide what is pushed and popped, from the kind of class
+        # the name has (0 Environment subclass, 1 Command class or unknown name: Macro.invoke, 2 \newenvironment: NewCommand.invoke)
+        o, p = newobj(kind, 1), newobj(kind, 2)
+        ck = 1 if kind in MACRO_ENVS else 0
+        ops.append(['benv', 100 + PT[kind], ck, o, kind])
+        body(depth + 1)
+        ops.append(['eenv', 100 + PT[kind], ck, p, kind])
 
     def items(l, depth):
         for it in l:
@@ -709,13 +725,14 @@ def compile_prog(case):
         elif k == 'useenv':
             # NewCommand.invoke: \begin{env} = arguments, a begin-group token, the begin code; \end{env} = the end code, an
             # end-group token: an anonymous group around begin code, body and end code
-            ops.append(['push', -1])
+            envno[0] += 1
+            ops.append(['benv', 200 + envno[0], 2, len(objs), 'qe'])
             items(it[2], depth + 1)
             if it[1]:
                 items(it[4], depth + 1)
             items(it[5], depth + 1)
             items(it[3], depth + 1)
-            ops.append(['pop', -1])
+            ops.append(['eenv', 200 + envno[0], 2, len(objs), 'qe'])
         elif k == 'grp':
             kind = it[1]
             if kind in ('brace', 'begingroup'):
@@ -723,7 +740,7 @@ def compile_prog(case):
                 items(it[2], depth + 1)
                 ops.append(['pop', -1])
             elif kind in ENVS or kind == 'itemize':
-                pair(kind, lambda d: items(it[2], d), depth)
+                envpair(kind, lambda d: items(it[2], d), depth)
             elif kind in MATHS:
                 pair(MATHS[kind][2], lambda d: items(it[2], d), depth)
             else:               # \cmd{...}: push(self); argument expanded in a sub-process (push/pop ArgumentContext); pop(self)
@@ -747,16 +764,17 @@ def compile_prog(case):
             pair('tabular', body, depth)            # \end{tabular}: pop(self) closes the open cell and the table
         elif k == 'loose-env':
             o, p = newobj(it[1], 1), newobj(it[1], 2)
-            ops.append(['push', o])
+            ck = 1 if it[1] in MACRO_ENVS else 0
+            ops.append(['benv', 100 + PT[it[1]], ck, o, it[1]])
             items(it[2], depth + 1)
             ops.append(['push', -1])
             items(it[3], depth + 2)
-            ops.append(['pop', p])
+            ops.append(['eenv', 100 + PT[it[1]], ck, p, it[1]])
         elif k == 'loose-grp':
             o = newobj(it[1], 1)
             ops.append(['push', -1])
             items(it[2], depth + 1)
-            ops.append(['push', o])
+            ops.append(['benv', 100 + PT[it[1]], 1 if it[1] in MACRO_ENVS else 0, o, it[1]])
             items(it[3], depth + 2)
             ops.append(['pop', -1])
         else:
@@ -1158,9 +1176,9 @@ def has_local_change_in_group(ops):
     d = 0
     seen = False
     for o in ops:
-        if o[0] == 'push':
+        if o[0] in ('push', 'benv'):
             d += 1
-        elif o[0] == 'pop':
+        elif o[0] in ('pop', 'eenv'):
             d = max(0, d - 1)
             if seen:
                 return True
